@@ -322,11 +322,13 @@ _arithmetic_operations = {
 }
 
 
-def _parse_arithmetic_chain(tokens: pp.ParseResults) -> float:
+def _parse_arithmetic_chain(string: str, location: int, tokens: pp.ParseResults) -> float:
     # infixNotation passes a whole left-associative chain at once: operand (operator operand)+
     group = tokens[0]
     value = group[0]
     for i in range(1, len(group), 2):
+        if group[i] == "/" and group[i + 1] == 0:
+            raise pp.ParseFatalException(string, location, "division by zero in constant expression")
         value = _arithmetic_operations[group[i]](value, group[i + 1])
     return value
 
